@@ -32,7 +32,41 @@ def bounded_wait_until_idle(c: Ctx) -> list[str]:
         v = a.value
         if isinstance(v, ast.Call) and call_name(v) == 'wait_for':
             to = q.kw(v, 'timeout') or (v.args[1] if len(v.args) > 1 else None)
-            if not (isinstance(to, ast.Name) and to.id in derived) and not (isinstance(to, ast.Constant) and isinstance(to.value, (int, float))):
+            def none_iff_no_timeout(nm: str, depth: int = 0) -> bool:
+                # the parameter itself, or a local whose one definition is `None if <such a name> is None else <number>` — NOT a truthiness test: `x if timeout else None`
+                # is None for timeout=0 as well, and a wait bounded by it is then not bounded at all
+                if nm == tparam:
+                    return True
+                ds = [n for n in own_nodes(u.node) if isinstance(n, (ast.Assign, ast.AnnAssign)) and n.value is not None and isinstance((n.targets[0] if isinstance(n, ast.Assign) else n.target), ast.Name)
+                      and (n.targets[0] if isinstance(n, ast.Assign) else n.target).id == nm]
+                if len(ds) != 1 or depth > 3 or not isinstance(ds[0].value, ast.IfExp):
+                    return False
+                v_ = ds[0].value
+                t_ = v_.test
+                if not (isinstance(t_, ast.Compare) and len(t_.ops) == 1 and isinstance(t_.left, ast.Name) and isinstance(t_.comparators[0], ast.Constant) and t_.comparators[0].value is None
+                        and isinstance(t_.ops[0], (ast.Is, ast.IsNot)) and none_iff_no_timeout(t_.left.id, depth + 1)):
+                    return False
+                none_arm, num_arm = (v_.body, v_.orelse) if isinstance(t_.ops[0], ast.Is) else (v_.orelse, v_.body)
+                return isinstance(none_arm, ast.Constant) and none_arm.value is None and not (isinstance(num_arm, ast.Constant) and num_arm.value is None)
+
+            def bounded(e) -> bool:
+                # a number whenever the timeout parameter is one: a name derived from it, a numeric literal, arithmetic / max / min over those, or
+                # `None if timeout is None else <such>` (the None arm is taken only when no timeout was given)
+                if isinstance(e, ast.Name):
+                    return e.id in derived
+                if isinstance(e, ast.Constant):
+                    return isinstance(e.value, (int, float)) and not isinstance(e.value, bool)
+                if isinstance(e, ast.IfExp) and isinstance(e.test, ast.Compare) and len(e.test.ops) == 1 and isinstance(e.test.left, ast.Name) and none_iff_no_timeout(e.test.left.id) \
+                        and isinstance(e.test.comparators[0], ast.Constant) and e.test.comparators[0].value is None:
+                    none_arm, num_arm = (e.body, e.orelse) if isinstance(e.test.ops[0], ast.Is) else (e.orelse, e.body) if isinstance(e.test.ops[0], ast.IsNot) else (None, None)
+                    return none_arm is not None and isinstance(none_arm, ast.Constant) and none_arm.value is None and bounded(num_arm)
+                if isinstance(e, ast.BinOp) and isinstance(e.op, (ast.Add, ast.Sub)):
+                    return bounded(e.left) or bounded(e.right)
+                if isinstance(e, ast.Call) and isinstance(e.func, ast.Name) and e.func.id in ('max', 'min') and not e.keywords:
+                    return any(bounded(x) for x in e.args) and (e.func.id == 'min' or all(bounded(x) or isinstance(x, (ast.BinOp, ast.Call)) for x in e.args))
+                return False
+
+            if to is None or not bounded(to):
                 why.append(f'`{U(v)[:60]}` is not bounded by the timeout')
         elif isinstance(v, ast.Call) and U(v.func) in ('asyncio.sleep',) and v.args and isinstance(v.args[0], ast.Constant):
             pass
